@@ -341,7 +341,7 @@ Definition table_relative (p : string) : Prop := startswith "data/" p = true \/ 
 (* a stored reference as the writers produce it: "data/x", "/data/x", "metadata/manifests/y", ... *)
 Definition wf_ref (r : string) : Prop := table_relative (resolve r).
 Definition wf_data_ref (r : string) : Prop := startswith "data/" (resolve r) = true.      (* data files live under data/ *)
-Definition wf_meta_ref (r : string) : Prop := startswith "metadata/" (resolve r) = true.  (* lists, manifests under metadata/ *)
+Definition wf_meta_ref (r : string) : Prop := startswith "metadata/manifests/" (resolve r) = true.  (* lists, manifests *)
 
 (* what a file IS for every reader of the library (Avro or legacy JSON; a JSON object without the key is empty) *)
 Definition as_list (c : content) : option (list string) :=
@@ -401,12 +401,12 @@ Definition is_marker_keyb (mk : key) : bool :=
   startswith (INFLIGHT_PATH ++ "/") mk && endswith INFLIGHT_SUFFIX (basename mk).
 Definition wf_objb (k : key) (o : obj) : bool :=
   match body o with
-  | CList _ ms => forallb (fun m => negb (nonempty m) || startswith "metadata/" (resolve m)) ms
+  | CList _ ms => forallb (fun m => negb (nonempty m) || startswith "metadata/manifests/" (resolve m)) ms
   | CManifest _ es => forallb (fun e => startswith "data/" (resolve e)) es
   | CMarker (Some t) => negb (is_marker_keyb k && nonempty t) || str_mem (resolve t) (name_candidates k)
   | _ => true
   end.
 Definition wf_storeb (snaps : list string) (st : store) : bool :=
   nodupb (map fst st)
-  && forallb (fun l => negb (nonempty l) || startswith "metadata/" (resolve l)) snaps
+  && forallb (fun l => negb (nonempty l) || startswith "metadata/manifests/" (resolve l)) snaps
   && forallb (fun p => wf_objb (fst p) (snd p)) st.
